@@ -625,6 +625,22 @@ fn read_raw_pkt(ctx: &mut Ctx, r: &ScionRawPacketView) {
             read_scmp_pkt(ctx, s);
         }
     }
+    acc(ctx, 18, "raw.try_from_raw", |c| {
+        if let Ok(u) = ScionUdpPacketView::try_from_raw(r) {
+            c.inside("raw.try_from_raw.udp", u.as_slice());
+        }
+        if let Ok(s) = ScionScmpPacketView::try_from_raw(r) {
+            c.inside("raw.try_from_raw.scmp", s.as_slice());
+        }
+        let u2: Result<&ScionUdpPacketView, _> = r.try_into();
+        black_box(u2.is_ok());
+        let s2: Result<&ScionScmpPacketView, _> = r.try_into();
+        black_box(s2.is_ok());
+        let b = r.to_boxed();
+        black_box(ScionUdpPacketView::try_from_raw_owned(b).is_ok());
+        let b = r.to_boxed();
+        black_box(ScionScmpPacketView::try_from_raw_owned(b).is_ok());
+    });
     // typed views irrespective of next_header: a view that constructs must be safe to use
     acc(ctx, 16, "raw.typed_any", |c| {
         if let Ok((u, _)) = ScionUdpPacketView::try_from_slice(r.as_slice()) {
@@ -699,6 +715,14 @@ fn mut_std(p: &mut StandardPathView, k: usize) -> Option<String> {
     slot!(k, 1, "std.try_reverse", { let _ = p.try_reverse(); });
     slot!(k, 2, "std.advance_ingress", { let _ = p.advance_ingress(k == 0); });
     slot!(k, 1, "std.advance_egress", { let _ = p.advance_egress(); });
+    slot!(k, 2, "std.advance_ingress_with_validator", {
+        use sciparse::dataplane_path::standard::routing::HopMacValidator;
+        let _ = p.advance_ingress_with_validator(HopMacValidator { key: KEY }, k == 0);
+    });
+    slot!(k, 1, "std.advance_egress_with_validator", {
+        use sciparse::dataplane_path::standard::routing::HopMacValidator;
+        let _ = p.advance_egress_with_validator(HopMacValidator { key: KEY });
+    });
     let _ = k;
     None
 }
@@ -828,6 +852,13 @@ fn mut_raw(r: &mut ScionRawPacketView, k: usize) -> Option<String> {
     slot!(k, 6, "raw.payload_mut.write_scmp_type", { let p = r.payload_mut(); if !p.is_empty() { p[0] = [1u8, 5, 6, 128, 130, 99][k]; } });
     slot!(k, 6, "raw.try_as_udp_mut", { if let Ok(u) = r.try_as_udp_mut() { let _ = mut_udp_pkt(u, k); } });
     slot!(k, 3, "raw.try_as_scmp_mut.header_mut", { if let Ok(s) = r.try_as_scmp_mut() { let _ = mut_hdr(s.header_mut(), k); } });
+    slot!(k, 2, "raw.try_from_raw_mut", {
+        if k == 0 {
+            if let Ok(u) = ScionUdpPacketView::try_from_raw_mut(r) { u.as_raw_mut().payload_mut().fill(0x02); }
+        } else if let Ok(s) = ScionScmpPacketView::try_from_raw_mut(r) {
+            s.header_mut().set_traffic_class(1);
+        }
+    });
     mut_hdr(r.header_mut(), k)
 }
 
@@ -922,7 +953,7 @@ macro_rules! run_catalogue {
             // thorough tier: sequences of three mutators (then all accessors), a stride sample of the nmut^3 space
             // rotating with the vector index
             if $pairs && nmut > 0 && $maxpairs > 1000 {
-                const MAXTRIPLES: usize = 3000;
+                const MAXTRIPLES: usize = 2000;
                 let total = nmut * nmut * nmut;
                 let step = total.div_ceil(MAXTRIPLES).max(1);
                 let mut ti = ($idx as usize) % step;
